@@ -328,6 +328,9 @@ M('F39R', 'src/xdoctest/parser.py', """                if lineno > prev_end:
                     # (a statement behind a semicolon on the closing line of
                     # a multi-line statement does not start a line)
                     ps1_linenos.append(lineno)""", """                ps1_linenos.append(lineno)""", ['C01'], 'F39 repair reverted: a multi-line statement is cut where a statement behind a semicolon starts')
+M('F40R', 'src/xdoctest/doctest_example.py', """                        found_lineno = 1
+                    self.failed_tb_lineno = found_lineno""", """                        raise ValueError('Could not clean traceback: ex = {!r}'.format(_ex_dbg))
+                    self.failed_tb_lineno = found_lineno""", ['C09'], 'F40 repair reverted: an error without a doctest frame escapes run()')
 M('F17R', 'src/xdoctest/doctest_example.py', """                part_directive = None
                 try:
                     try:
